@@ -1,6 +1,9 @@
 """C18 -- done-callbacks fire exactly once for every registered thread and task.
 
 Model: coq/theories/DoneCb/Model.v (+ Task.v); theorems: Props/C18.v.
+Tie (task half, second tie): translate/taskdone_funs.py regenerates Gen/TaskDoneFuns.v (statement AST of task.py,
+union.py, thread_exception.py, aio.current_task_or_thread); DoneCb/TaskInterp.v interprets it and
+DoneCb/TaskTie.v proves that its step equals the step of DoneCb/Task.v for all well-formed states.
 Tie: (i) translate/donecb_skeleton.py regenerates Gen/DoneCbSkeleton.v from the
 bytecode of ThreadDoneCallback.{register,close,_monitor}; DoneCb/Model.v proves
 that its hand-written programs are exactly the shared accesses of that skeleton;
@@ -24,13 +27,19 @@ from pathlib import Path
 from .. import common as C
 from ..common import Corr, Violation, cbool, clist, cnat
 
-TRANSLATORS = ['donecb_skeleton']
+TRANSLATORS = ['donecb_skeleton', 'taskdone_funs']
 
 TRUSTED_BASE = [
     'opcode scheduler harness/props/c18.py (sys.settrace opcode events; parks every thread before each shared access of '
     'register/close/_monitor and releases one at a time) and its event log',
     'translate/donecb_skeleton.py classification of bytecodes into shared accesses vs frame-local instructions '
     '(frame-local instructions commute with other threads; spot-checked by the every-opcode mode)',
+    'translate/taskdone_funs.py (ast -> Gen/TaskDoneFuns.v: every method of TaskDoneCallback, ThreadTaskDoneCallback, '
+    'ExcThread and current_task_or_thread as a statement AST; fail-closed) and the semantics DoneCb/TaskInterp.v gives that '
+    'AST (method lookup by name, frames, time.sleep as the suspension point of the close methods, asyncio '
+    'add_done_callback / call_soon / current_task as primitives, the ThreadDoneCallback inside the union and '
+    'threading.Thread as primitives); DoneCb/TaskTie.v proves interpreter step = DoneCb/Task.v step for all well-formed '
+    'states and all operations (C18_tie_task_*)',
     'modelled, not verified: CPython executes one bytecode atomically under the GIL (set.add, set difference, '
     'set iterator next, Thread.is_alive are single C calls); threading.Thread.join; asyncio done-callback dispatch',
 ]
@@ -822,6 +831,139 @@ def oracle_task_window(o: dict) -> list:
     return res
 
 
+async def run_union_case(default_reg: bool, raise_who, close_first: bool, task_first: bool = False):
+    """The real ThreadTaskDoneCallback with ONE task and ONE thread registered through it (explicitly, or -- default_reg --
+    each registering itself with register()); close() is called from another thread before (close_first) or after both have
+    ended.  raise_who: None | 'task' | 'thread' (whose callback raises).  -> dict of observations"""
+    from nextline.utils.done_callback.union import ThreadTaskDoneCallback
+    loop = asyncio.get_running_loop()
+    cbs, excs, result = [], {}, {}
+
+    def done(x):
+        kind = 'task' if isinstance(x, asyncio.Task) else 'thread'
+        cbs.append([kind, time.monotonic()])
+        if kind == raise_who:
+            e = ValueError(f'union-callback-{kind}')
+            excs[id(e)] = kind
+            raise e
+
+    obj = ThreadTaskDoneCallback(done=done, interval=0.0005)
+    fut = loop.create_future()
+    ev, registered = threading.Event(), threading.Event()
+
+    def reg(*a):
+        try:
+            obj.register(*a)
+        except BaseException as e:   # noqa
+            result.setdefault('register_raised', repr(e))
+
+    async def body():
+        if default_reg:
+            reg()
+        await fut
+
+    def target():
+        if default_reg:
+            reg()
+        registered.set()
+        ev.wait(10)
+
+    task = asyncio.ensure_future(body())
+    th = threading.Thread(target=target, daemon=True)
+    th.start()
+    await asyncio.sleep(0)
+    if not default_reg:
+        reg(task)
+        reg(th)
+    for _ in range(200):
+        if registered.is_set():
+            break
+        await asyncio.sleep(0.005)
+
+    def close_target():
+        try:
+            obj.close(interval=0.0005)
+            result['raised'] = None
+        except BaseException as e:   # noqa
+            result['raised'] = excs.get(id(e), repr(e))
+        result['t'] = time.monotonic()
+
+    closer = threading.Thread(target=close_target, daemon=True)
+    early = False
+    if close_first:
+        closer.start()
+        await asyncio.sleep(0.03)
+        early = not closer.is_alive()
+    if task_first:
+        # the task ends (and is called back) while the registered thread is still running: close() must go on waiting
+        fut.set_result(None)
+        for _ in range(4):
+            await asyncio.sleep(0)
+        await asyncio.sleep(0.06)
+        if close_first and not closer.is_alive() and th.is_alive():
+            early = True
+    ev.set()
+    th.join(5)
+    if not task_first:
+        fut.set_result(None)
+    for _ in range(4):
+        await asyncio.sleep(0)
+    t_ended = time.monotonic()
+    if not close_first:
+        closer.start()
+    for _ in range(400):
+        if not closer.is_alive():
+            break
+        await asyncio.sleep(0.005)
+    for _ in range(100):                     # callbacks still owed after close() (only when it raised)
+        if len(cbs) >= 2:
+            break
+        await asyncio.sleep(0.005)
+    hung = closer.is_alive()
+    try:                                     # cleanup: never leave a polling monitor thread behind
+        obj._task_callback._active.clear()
+        obj._thread_callback._closed = True
+        threading.Thread.join(obj._thread_callback._t, 1.0)
+    except Exception:
+        pass
+    return {'default_reg': default_reg, 'raise_who': raise_who, 'close_first': close_first, 'task_first': task_first, 'cbs': cbs, 't_ended': t_ended,
+            'close': dict(result), 'close_returned_while_alive': early, 'closer_alive': hung}
+
+
+def oracle_union(o: dict) -> list:
+    bad = []
+    if o['close'].get('register_raised'):
+        return [('union:register-raised', f"ThreadTaskDoneCallback.register() raised {o['close']['register_raised']}")]
+    if o['closer_alive'] or 't' not in o['close']:
+        return [('union:close-hangs', 'ThreadTaskDoneCallback.close() never returned although the registered task and thread ended')]
+    for kind in ('task', 'thread'):
+        n = sum(1 for k, _ in o['cbs'] if k == kind)
+        if n != 1:
+            bad.append(('union:callback-count', f'callback invoked {n} times for the registered {kind}'))
+    if o['close_returned_while_alive']:
+        bad.append(('union:close-early' + (':thread-alive-after-task-callback-raised' if o.get('task_first') and o['raise_who'] == 'task' else ''),
+                    'ThreadTaskDoneCallback.close() ended while ' + ('the registered thread was still running (the callback of the registered task had raised: '
+                    'close() re-raised it at once and never closed the thread helper)' if o.get('task_first') else 'the registered task and thread were still running')))
+    want, got = o['raise_who'], o['close'].get('raised')
+    if got != want:
+        bad.append(('union:exception-lost' if want is not None and got is None else 'union:close-raised-other',
+                    f'ThreadTaskDoneCallback.close() raised {got!r}; the callback that raised: {want}'))
+    if want is None:
+        late = [k for k, t in o['cbs'] if t > o['close']['t']]
+        if late:
+            bad.append(('union:close-early:before-callback', f'close() returned before the callback of the registered {late[0]} had been invoked'))
+    seen, res = set(), []
+    for s0, w in bad:
+        if s0 not in seen:
+            seen.add(s0); res.append((s0, w))
+    return res
+
+
+UNION_CASES = [(d, r, c, False) for d in (False, True) for r in (None, 'task', 'thread') for c in (False, True)
+               if not (c and r == 'task')] + \
+              [(d, r, True, True) for d in (False, True) for r in (None, 'task')]     # the task ends first, the thread is still running
+
+
 def oracle_task(raises, ops, outs) -> list:
     bad = []
     pending, finished = set(), set()      # registered-and-owed, ended
@@ -1130,6 +1272,12 @@ def correspond(ctx) -> Corr:
             for sig, what in oracle_task_window(o):
                 corr.violations.append(Violation(sig, what, {'half': 'task-window', 'n': n, 'raises': sorted(raises), 'observed': o}))
         corr.extra['task_window_cases'] = nwin
+        # the union: one task and one thread registered through ThreadTaskDoneCallback
+        for d, r, c, tf in UNION_CASES:
+            o = loop.run_until_complete(run_union_case(d, r, c, tf))
+            for sig, what in oracle_union(o):
+                corr.violations.append(Violation(sig, what, {'half': 'union', 'default_reg': d, 'raise_who': r, 'close_first': c, 'task_first': tf, 'observed': o}))
+        corr.extra['union_cases'] = len(UNION_CASES)
     finally:
         loop.close()
     CH = 400
@@ -1187,6 +1335,11 @@ def replay(ctx, path: Path) -> int:
         o = loop.run_until_complete(run_task_window_case(set(j.get('raises', [])), j['n']))
         print('observed:', o)
         bad = oracle_task_window(o)
+    elif j.get('half') == 'union':
+        loop = asyncio.new_event_loop()
+        o = loop.run_until_complete(run_union_case(j['default_reg'], j['raise_who'], j['close_first'], j.get('task_first', False)))
+        print('observed:', o)
+        bad = oracle_union(o)
     elif j.get('half') == 'task':
         loop = asyncio.new_event_loop()
         outs = loop.run_until_complete(run_task_case(set(j.get('raises', [])), j['ops']))
